@@ -47,7 +47,8 @@ def build(repo):
     gen = header(log, f"{FILE}: Parser::class_bound_function") + prelude("parser.rs") + COND_SPEC + SPEC + f"""
 //@ OBL C02.member.returns
 pub fn class_bound_function(input: Node, ud: &mut UD) -> (r: Result<MemberFunction, VErr>)
-    requires node_children(&input).len() >= 4          // grammar: ident ~ parameters ~ return type? ~ body (the longer form)
+    requires node_children(&input).len() >= 4,         // grammar: ident ~ parameters ~ return type? ~ body (the longer form)
+             statuses(old(ud)).len() == base_depth()
     ensures
         // declared `-> T` (third child is the return type): accepted only if every path through the body (the fourth child) returns
         (r is Ok && has_rule(&node_children(&input)[2], "function_return_type")) ==> block_returns(node_children(&input)[3]),
